@@ -9,7 +9,7 @@ TECHNIQUE = 'Coq proof of the row equations of the sweep models + bit-exact kern
 LEVEL_TEXT = ('Kernel-checked theorems (Props/C09.v) about the Gallina models of the native sweeps over an arbitrary '
               'field: after relaxing row i the row equation d*x_i + sum_{j<>i} a_ij x_j = b_i holds (Gauss-Seidel), '
               'its omega-weighted forms hold for SOR and Jacobi, rows with zero diagonal and all other entries are '
-              'untouched, the exact solution is a fixed point of every point sweep, k iterations are the k-fold '
+              'untouched, whole sweeps leave zero-diagonal rows and every entry outside the swept range unchanged (C09_sweeps_leave_zero_diagonal_and_unswept_rows, also for the indexed kernels), the exact solution is a fixed point of every point sweep, k iterations are the k-fold '
               'composition and SOR with omega=1 is Gauss-Seidel; for the Kaczmarz step (gauss_seidel_ne, any conjugation function) '
               'the row product after the step is a_i.x + |a_i|^2 delta, so with Dinv = 1/|a_i|^2 the residual of row i is '
               'multiplied by (1 - omega), entries outside the row are untouched and a vector solving every row is a fixed '
